@@ -5,15 +5,13 @@ Model of the structured branch of `destinationStdout.log` / `destinationFile.log
 
     {"timestamp":"<t.Format(RFC3339Nano)>","level":"<DEB|INF|WAR|ERR>","message":<Q(fmt.Sprintf(..))>}\n
 
-`Q` is the quoting routine the source calls for the message (regenerated fact, `Gen/C37.lean`):
-* `strconvQuote` — Go `strconv.Quote` (Go string-literal syntax: `\a \v \x.. \u.... \U........`);
-  this is what the pinned tree calls;
-* `jsonMarshal`  — `encoding/json` string encoding (`json.Marshal(string)`, HTML escaping on).
-
-Both are modelled byte for byte, on top of a model of `utf8.DecodeRune` (Go semantics: an invalid or
+`Q` is `encoding/json` string encoding (`json.Marshal(string)`, HTML escaping on) since /repo b0a84c7;
+that this is what the source calls is a regenerated fact (`Gen/C37.lean`, used by the theorems only).
+It is modelled byte for byte, on top of a model of `utf8.DecodeRune` (Go semantics: an invalid or
 truncated sequence is ONE byte wide).  Oracles (third-party, passed in as columns of the op line):
-`fmt.Sprintf` (the formatted message), `time.Format` (the timestamp text), `strconv.IsPrint` for runes
-≥ U+0080 (list of non-printable code points occurring in the message).
+`fmt.Sprintf` (the formatted message), `time.Format` (the timestamp text).  (Before b0a84c7 the
+message was written with `strconv.Quote`, whose `\a \v \xhh \Uhhhhhhhh` are not JSON; the witnesses
+stay in corpus/C37 as regressions.)
 
 The spec side is an independent strict JSON reader for one-line flat objects with string values
 (`parseLine`), written from RFC 8259, and `sanitize` (each invalid byte → U+FFFD).
@@ -103,57 +101,8 @@ def sanitizeGo : Nat → Bytes → Bytes
 
 def sanitize (m : Bytes) : Bytes := sanitizeGo 0 m
 
-/-! ### `strconv.Quote` -/
-
 def BS : UInt8 := 92      -- backslash
 def QUOTE : UInt8 := 34
-
-/-- `appendEscapedRune` for an ASCII rune -/
-def goEscASCII (c : UInt8) : Bytes :=
-  let x := c.toNat
-  if x = 34 ∨ x = 92 then [BS, c]
-  else if 0x20 ≤ x ∧ x ≤ 0x7E then [c]
-  else if x = 7 then [BS, 97]          -- \a
-  else if x = 8 then [BS, 98]          -- \b
-  else if x = 12 then [BS, 102]        -- \f
-  else if x = 10 then [BS, 110]        -- \n
-  else if x = 13 then [BS, 114]        -- \r
-  else if x = 9 then [BS, 116]         -- \t
-  else if x = 11 then [BS, 118]        -- \v
-  else BS :: 120 :: hex2 x             -- \xhh
-
-/-- body of `strconv.Quote(m)` between the quotes. `copy` says whether the `k` pending continuation
-bytes are copied (printable rune) or dropped (the rune was written as an escape). -/
-def goQuoteGo (isPrint : Nat → Bool) : Bool → Nat → Bytes → Bytes
-  | _, _, [] => []
-  | cp, k + 1, c :: r => if cp then c :: goQuoteGo isPrint cp k r else goQuoteGo isPrint cp k r
-  | _, 0, c :: r =>
-    if c.toNat < 0x80 then goEscASCII c ++ goQuoteGo isPrint true 0 r
-    else match decodeRune (c :: r) with
-      | none => BS :: 120 :: hex2 c.toNat ++ goQuoteGo isPrint true 0 r
-      | some (rune, w) =>
-        if isPrint rune then c :: goQuoteGo isPrint true (w - 1) r
-        else if rune < 0x10000 then BS :: 117 :: hex4 rune ++ goQuoteGo isPrint false (w - 1) r
-        else BS :: 85 :: hex8 rune ++ goQuoteGo isPrint false (w - 1) r
-
-def goQuote (isPrint : Nat → Bool) (m : Bytes) : Bytes :=
-  QUOTE :: goQuoteGo isPrint true 0 m ++ [QUOTE]
-
-/-- The decidable class of the finding: `strconv.Quote` writes an escape that JSON does not have
-(`\a`, `\v`, `\xhh` for other control bytes / DEL / invalid UTF-8, `\U........` for non-printable
-runes above U+FFFF). -/
-def goQuoteBadGo (isPrint : Nat → Bool) : Nat → Bytes → Bool
-  | _, [] => false
-  | k + 1, _ :: r => goQuoteBadGo isPrint k r
-  | 0, c :: r =>
-    let x := c.toNat
-    if x < 0x80 then
-      ((x < 0x20 ∧ x ≠ 8 ∧ x ≠ 9 ∧ x ≠ 10 ∧ x ≠ 12 ∧ x ≠ 13) ∨ x = 0x7F) || goQuoteBadGo isPrint 0 r
-    else match decodeRune (c :: r) with
-      | none => true
-      | some (rune, w) => (!isPrint rune && decide (rune ≥ 0x10000)) || goQuoteBadGo isPrint (w - 1) r
-
-def goQuoteNonJSON (isPrint : Nat → Bool) (m : Bytes) : Bool := goQuoteBadGo isPrint 0 m
 
 /-! ### `encoding/json` string encoding (`appendString`, escapeHTML = true) -/
 
@@ -183,15 +132,12 @@ def jsonString (m : Bytes) : Bytes := QUOTE :: jsonStrGo true 0 m ++ [QUOTE]
 
 /-! ### the log line -/
 
+/-- vocabulary of the fact extractor (tools/xlate/c37): which routine quotes the message.
+Only `jsonMarshal` is modelled; `strconvQuote` is what the tree had before /repo b0a84c7. -/
 inductive Quoter where
   | strconvQuote
   | jsonMarshal
 deriving Repr, DecidableEq
-
-def quoteWith (q : Quoter) (isPrint : Nat → Bool) (m : Bytes) : Bytes :=
-  match q with
-  | .strconvQuote => goQuote isPrint m
-  | .jsonMarshal => jsonString m
 
 def kOpen : Bytes := [123, 34, 116, 105, 109, 101, 115, 116, 97, 109, 112, 34, 58, 34]   -- {"timestamp":"
 def kMid1 : Bytes := [34, 44, 34, 108, 101, 118, 101, 108, 34, 58, 34]                   -- ","level":"
